@@ -893,13 +893,13 @@ def gen_code_for_args(args, param_types, code, codegen):
 def gen_code_for_block(node_list, code, codegen):
     assert isinstance(node_list, list)
 
-    if not node_list:
-        # add a dummy statement in the middle so we can differentiate
-        # code from the start of block and code from the end of the
-        # block when generating debug info.
-        if codegen.debug_info_enabled:
-            code.add(('_empty_block',))
-        return
+    # mark the start of the inside of the block so we can
+    # differentiate code from the start of block and code from the
+    # end of the block when generating debug info, also when nothing
+    # inside the block has any code (an empty block, or one that only
+    # holds declarations or labels).
+    if codegen.debug_info_enabled:
+        code.add(('_empty_block',))
 
     for inner_stmt in node_list:
         codegen.gen_code_for_node(inner_stmt, code)
